@@ -68,7 +68,7 @@ def scenario(hist, entry, rng, variant=0):
         lifecycle.observe_all(hist, obj, entry, lifecycle.take(P, perm), "RowPure", note=who + " permuted batch")
         sub = sorted(rng.sample(range(m), max(1, m // 2)))
         lifecycle.observe_all(hist, obj, entry, lifecycle.take(P, sub), "RowPure", note=who + " sub-batch")
-        for q in rng.sample(range(m), 3):
+        for q in (range(m) if m <= 16 else rng.sample(range(m), 8)):        # every probe alone (rows of unseen buckets among them)
             lifecycle.observe_all(hist, obj, entry, lifecycle.take(P, [q]), "RowPure", note=who + " single row")
         lifecycle.observe_all(hist, obj, entry, P, "RowPure", note=who + " repeated call")
         # a bootstrap-like batch: rows drawn with repetition (for a frame: repeated index labels)
@@ -203,7 +203,7 @@ def run(ctx):
         if not entry.fit or not entry.rowwise or not entry.methods:
             ctx.skipped.append("%s: no row-wise method exercised here" % entry.name)
             continue
-        for rep in range(14 if thorough else 2):
+        for rep in range(14 if thorough else (6 if "weights" in entry.name else 2)):
             tid += 1
             hist = lifecycle.History(tid, "C04 " + entry.name, "batch / permutation / sub-batch / single rows / pickle / clone-with-fitted")
             scenario(hist, entry, rng, rep % 2)
